@@ -1,0 +1,26 @@
+//go:build verif
+
+package discovery
+
+import (
+	"bufio"
+	"os"
+)
+
+// ServerListFromVERIF is a discovery plug-in module used by the verification
+// harness only: "--discovery VERIF:<file>" reads one server per line from
+// <file>, so that the /regex/ server filter can be exercised (the COMMA and
+// FILE modules read the same string the filter is given in).
+func (d *Discovery) ServerListFromVERIF() (servers []string) {
+	file, err := os.Open(d.options)
+	if err != nil {
+		return nil
+	}
+	defer file.Close()
+	scanner := bufio.NewScanner(file)
+	scanner.Buffer(make([]byte, 1024*1024), 16*1024*1024)
+	for scanner.Scan() {
+		servers = append(servers, scanner.Text())
+	}
+	return
+}
